@@ -81,7 +81,7 @@ class SymbolSegmentHeader(NITFElement):
             raise ValueError('DLUT must be a numpy array of dtype uint8, got {}'.format(value.dtype.name))
         if value.ndim != 2 or value.shape[1] != 3:
             raise ValueError('DLUT must be a two-dimensional array of shape (N, 3).')
-        if value.size > 256:
+        if value.shape[0] > 256:
             raise ValueError(
                 'The number of DLUT elements must be 256 or fewer. '
                 'Got DLUT shape {}'.format(value.shape))
@@ -97,14 +97,14 @@ class SymbolSegmentHeader(NITFElement):
         int
         """
 
-        return 0 if self._DLUT is None else self._DLUT.size
+        return 0 if self._DLUT is None else self._DLUT.shape[0]
 
     def _get_attribute_bytes(self, attribute):
         if attribute == 'DLUT':
             if self.NELUT == 0:
                 out = b'000'
             else:
-                out = '{0:d}'.format(self.NELUT).encode() + \
+                out = '{0:03d}'.format(self.NELUT).encode() + \
                       struct.pack('{}B'.format(self.NELUT*3), *self.DLUT.flatten())
             return out
         else:
